@@ -28,6 +28,10 @@ claimed = {
    "Decides structural necessary conditions of the Kafka commit contract: pack/unpack shift/mask agreement and +1, mark provenance (event's own id/offset, config.Topics[index]), topic index = position in config.Topics, marks only in InputPlugin.Commit, and the spread+stateless-Commit combination (known finding K2). It does not decide that the head never passes an unfinished record under a concrete schedule."),
  "C16": ("lock-region dataflow with wrapper summaries over the limiter and limiter-map state, dominance of add before get with equal index arguments, def-use of the map key, control dependence of the rule loop", "§3 C16",
    "Thin: decides only that in-memory limiter state is touched inside lock()/unlock(), add precedes get for the same bucket/distribution and the verdict is value<=limit, the limiter map is accessed under its mutex with a key built from rule part and throttle key, and the first matching rule decides. No counting clause of the statement is decided; redis backend out of scope."),
+ "C14": ("enum/switch exhaustiveness over the typed AST, tag-to-primitive agreement and logical-operator shape over go/ssa guard facts, side-effect (purity) scan of evaluation methods", "§3 C14",
+   "Thin: decides that every do_if operator constant is constructed and explicitly handled in every evaluation switch; that each comparison tag, field operator and logical operator is implemented by the matching primitive/shape; that evaluation is pure; and the or/and/invert shapes of legacy match_fields. The value-list short-cuts, value ordering, case folding and timestamp parsing are not decided."),
+ "C19": ("typed-AST reset-before-append rule over every batched output's send function, raw-string taint into byte-buffer appends in output packages, sibling agreement of the split-and-resend helpers, CFG rules for the Kafka record loop and Batch.ForEach", "§3 C19",
+   "Decides structural necessary conditions of well-formed exactly-once payloads: per-event buffers truncated before iteration in all ten batched outputs, no raw event string appended to an output buffer, split halves (left,m)/(m,right) with the second only after the first succeeded and body data[begin[left]:begin[right]], one Kafka record slot per callback and messages[:i] produced, ForEach visiting every event but split parents in order. It does not decide byte-level validity of a payload."),
 }
 NA = {
  "C06": "the claim is an equation between runtime byte positions (offset = start + scanned) for every content, buffer size and append split; no sound static argument in reach bounds it, and the only structural proxies are matches on one loop's arithmetic (a frozen fragment)",
